@@ -116,7 +116,8 @@ impl Default for Profile {
             bad_connack_pct: 12,
             connect_cancel_pct: 6,
             rm_choices: vec![None, None, Some(1), Some(2), Some(3), Some(8), Some(9), Some(65535)],
-            mps_choices: vec![None, None, None, Some(64), Some(200), Some(100_000)],
+            // (round limits above 64 KiB restrict nothing here, but their low 16 bits are zero)
+            mps_choices: vec![None, None, None, Some(64), Some(200), Some(100_000), Some(65_536), Some(1 << 20)],
             maxqos_choices: vec![None, None, None, Some(0), Some(1)],
             ska_choices: vec![None],
             assigned_id_pct: 10,
